@@ -66,4 +66,32 @@ example :
     (runOk (apply (apply (apply empty ops[0]!) ops[1]!) ops[2]!) (ops.drop 3)).isSome = true := by
   decide
 
+/-! ### non-vacuity: a log rotation that failed half-way
+The creation of WAL 12 left an EMPTY file behind (I/O error), writes continue to go to WAL 11,
+the number 12 is re-used by the next rotation, and then WAL 12 is written. The monitor accepts the
+stream, the image recovers to exactly the three batches in order, and — the other direction — once
+WAL 12 holds a record an append to WAL 11 is rejected. -/
+example :
+    let k : Bytes := [107]
+    let b1 : WBatch := { start := 1, ops := [(k, some [1])] }
+    let b2 : WBatch := { start := 2, ops := [(k, some [2]), ([108], some [9])] }
+    let b3 : WBatch := { start := 4, ops := [(k, none)] }
+    let d0 := apply (apply (apply empty (.createManifest 1))
+      (.appendManifest 1 { walNumber := some 11, added := [], deleted := [] })) (.setCurrent 1)
+    let ops : List Op := [
+      .createWal 11, .appendWal 11 b1,
+      .createWal 12,            -- rotation fails after creating the file: WAL 12 exists, empty
+      .appendWal 11 b2,         -- writes continue in WAL 11 although the larger number 12 exists
+      .createWal 12,            -- the number is re-used by the next rotation
+      .appendWal 12 b3 ]
+    -- the intermediate image really is "WAL 11 non-empty, WAL 12 empty"
+    ((runOk d0 (ops.take 4)).map fun d => d.wals) = some [(11, [b1, b2]), (12, [])] ∧
+    (runOk d0 ops).isSome = true ∧
+    (((runOk d0 ops).bind recover).map fun r => r.entries)
+      = some (batchEntries b1 ++ batchEntries b2 ++ batchEntries b3) ∧
+    acked ops = [b1, b2, b3] ∧
+    -- appending behind a NON-empty newer log is still rejected (index 6 = the extra append)
+    firstBad d0 (ops ++ [.appendWal 11 { start := 5, ops := [(k, some [3])] }]) 0 = some 6 := by
+  decide
+
 end Rain.Durable
